@@ -164,7 +164,7 @@ def st_family(draw):
 
 
 COMPONENTS = [
-    Component("pair_2x2_complete_and_sound", check_pair, strategy=lambda: st_pair(True), quick=2500, thorough=60000,
+    Component("pair_2x2_complete_and_sound", check_pair, strategy=lambda: st_pair(True), quick=2500, thorough=60000, fuzz_runs=800,
               rule="two-facet 2-D cones (theta in (1,179), orthant, dyadic and unit-normal 2x2)"),
     Component("pair_all_cones_sound", check_pair, strategy=lambda: st_pair(False), quick=1000, thorough=25000,
               rule="all cone classes incl. K>m and 3-4-D: soundness only"),
